@@ -205,7 +205,7 @@ def hess_cases(draw, tier):
 def long_hess_cases(draw, tier):
     """(k+1) x k Hessenberg matrices with k past the blocking sizes 32 / 64 (the Arnoldi matrices of long restart
     cycles); dense or banded upper part."""
-    k = draw(st.sampled_from([33, 64, 65] if tier == "quick" else [33, 64, 65, 100, 129]))
+    k = draw(st.sampled_from([10, 12, 16, 17, 24, 31, 32, 33, 64, 65] if tier == "quick" else [10, 12, 16, 17, 24, 31, 32, 33, 40, 64, 65, 100, 129]))
     H, _ = draw(gen.long_qarray(k + 1, k, draw(st.sampled_from(["generic", "int", "sparse"]))))
     band = draw(st.sampled_from([None, None, 1, 3, 40]))
     for i in range(k + 1):
@@ -223,7 +223,7 @@ def long_hess_cases(draw, tier):
 
 @st.composite
 def long_tri_cases(draw, tier):
-    n = draw(st.sampled_from([33, 64, 65] if tier == "quick" else [33, 64, 65, 100, 129, 257]))
+    n = draw(st.sampled_from([10, 12, 16, 17, 24, 31, 32, 33, 64, 65] if tier == "quick" else [10, 12, 16, 17, 24, 31, 32, 33, 40, 64, 65, 100, 129, 257]))
     r = draw(st.integers(1, 3))
     T, _ = draw(gen.long_qarray(n, n, draw(st.sampled_from(["generic", "sparse"]))))
     T = T / (4.0 * n)                       # strictly diagonally dominant once the unit-modulus diagonal is set
@@ -420,9 +420,9 @@ PROPERTY = Property(
         Clause("hess_qr", check_hess, strategy=hess_cases, budget={"quick": 500, "thorough": 8000}),
         Clause("triangular", check_tri, strategy=tri_cases, budget={"quick": 500, "thorough": 8000},
                fuzz={"runs": 3000, "procs": 3}),
-        Clause("hess_qr_long_dimension", check_hess, strategy=long_hess_cases, budget={"quick": 16, "thorough": 160},
+        Clause("hess_qr_long_dimension", check_hess, strategy=long_hess_cases, budget={"quick": 40, "thorough": 400},
                shrink=False),
-        Clause("triangular_long_dimension", check_tri, strategy=long_tri_cases, budget={"quick": 16, "thorough": 160},
+        Clause("triangular_long_dimension", check_tri, strategy=long_tri_cases, budget={"quick": 40, "thorough": 400},
                shrink=False),
         Clause("scalar_inverse", check_scalar, strategy=scalar_cases, budget={"quick": 600, "thorough": 8000}),
     ],
